@@ -21,6 +21,10 @@ const OPS: &[&str] = &[
   "distinct_until_changed", "scan", "reduce", "count", "sum", "min", "max", "all", "contains", "default_if_empty",
   "ignore_elements", "start_with", "buffer_with_count", "window_with_count", "group_by", "materialize", "mat_demat", "tap",
   "map_to_any", "flat_map", "on_error_resume_next", "retry", "retry_when", "map_id",
+  // sharing operators (their subject's hooks once owned the subject itself), and
+  // Behavior/ReplaySubject-backed streams (the bridge to the inner subject once kept the
+  // subscriber's callbacks after a terminal)
+  "ref_count", "replay",
 ];
 
 impl Family for C17 {
@@ -43,7 +47,7 @@ impl Family for C17 {
     let pipeline = if rng.below(10) == 0 { Json::obj(vec![("src", Json::Int(0))]) } else { pipe::gen_node(rng, &g, depth, &mut next_src) };
     // finite sources that do end: complete or error (never silence, so that "ended" is well defined
     // unless a cancel is injected)
-    let mut sources = gen_sources(rng, nsrc, 3, false, &[Mode::Hot, Mode::Hot, Mode::Cold, Mode::Subject]);
+    let mut sources = gen_sources(rng, nsrc, 3, false, &[Mode::Hot, Mode::Hot, Mode::Cold, Mode::Subject, Mode::ReplaySubject]);
     for s in sources.iter_mut() {
       for sc in s.scripts.iter_mut() {
         if sc.last().map_or(true, |x| matches!(x, Step::N(_))) {
